@@ -11,6 +11,8 @@ TABLE_OPTS = ['', '-Cem', '-Ce', '-Cm', '-C', '-Cf', '-CF', '-Cae', '-Caf', '-Ca
 
 
 class Rule:
+    rpat = None     # printed head pattern / trailing context, once rendered
+    rtrail = None
     ident = None    # number passed to SIM_ACTION instead of the position (flattened scenarios of C05 part B)
 
     def __init__(self, pat=None, conds=None, bol=False, trail=None, eol=False, is_eof=False, star=False):
@@ -260,12 +262,19 @@ class Scenario:
             if self.flavor == 'c99':
                 return '%s<<EOF>>  %s' % (pre, self.c99_eof_action(k))
             return '%s<<EOF>>  { SIM_EOF_ACTION(%d); }' % (pre, k)
+        # the printed form of a pattern (which of several equivalent spellings of a class is used) is chosen
+        # per AST node; it is rendered once and kept as text, so that it survives pickling (worker -> parent,
+        # replay files), where node identities change
         st = (lambda n: r.styles.get(id(n), 0))
-        p = rx.to_flex(r.pat, st)
+        if r.rpat is None:
+            r.rpat = rx.to_flex(r.pat, st)
+        p = r.rpat
         if r.bol:
             p = '^' + p
         if r.trail is not None:
-            p += '/' + rx.to_flex(r.trail, st)
+            if r.rtrail is None:
+                r.rtrail = rx.to_flex(r.trail, st)
+            p += '/' + r.rtrail
         elif r.eol:
             p += '$'
         if r.bar:
@@ -594,6 +603,8 @@ def relabel_scenario(sc, perm):
     for r in sc.rules:
         q = copy.copy(r)
         q.styles = {}
+        q.rpat = None
+        q.rtrail = None
         if r.pat is not None:
             q.pat = rx.relabel(r.pat, perm)
         if r.trail is not None:
